@@ -18,7 +18,7 @@ func init() {
 		ID:    "C18",
 		Level: "fault_enumeration",
 		Rule: "reader: generated streams x every byte offset (all offsets for small streams, strided + random for larger) as the point where the reader fails with a sentinel error after a partial read (the error on the following Read, or together with the last bytes delivered), " +
-			"x reader kinds {seekable, plain, bufio} x {explicit, auto} x {NextPacket, NextData}; seeker: the Seek call of packet-size detection or of Rewind (after 0..5 calls) fails, a later Rewind succeeds and is compared with a fresh run; writer: Muxer histories (WriteTables / WriteData ending in packets with 0, 1, 2, many stuffing bytes / WritePacket) " +
+			"x reader kinds {seekable, plain, bufio} x {explicit, auto} x {NextPacket, NextData}; seeker: the Seek call of packet-size detection or of Rewind (after 0..5 calls) fails: no panic, no silent loss when no error is surfaced, a later Rewind with a working Seek restarts like a fresh Demuxer; writer: Muxer histories (WriteTables / WriteData ending in packets with 0, 1, 2, many stuffing bytes / WritePacket) " +
 			"re-run with the k-th Write call failing, for every k of the fault-free run, permanently and once, accepting 0 or a partial count; distinct = (stream or history, fault position, mode); " +
 			"non-trivial = the fault was actually injected during an API call",
 		Assumptions: []string{"for a bufio.Reader the pending call is the first call that returns an error (bufio delays the failure)", "after the first surfaced error the run stops: later behaviour is not part of the property"},
@@ -211,9 +211,11 @@ func readerFault1(c *mon.Ctx, idx int64, input []byte, cfg DemuxCfg, base []Item
 	c.Violate("C18/reader/fault-never-surfaced:"+cls+":"+region, "reader", idx, fmt.Sprintf("reader failed at offset %d but no call returned an error", f), data)
 }
 
-// seekFaults: (a) auto-detection on a seekable reader whose Seek fails: the first call must return an error wrapping the cause and
-// nothing else; (b) Rewind with a failing Seek, after 0..n calls, explicit and auto-detected size: Rewind must return an error wrapping
-// the cause; (c) a Rewind whose Seek succeeds after an earlier failed one restarts from the first byte.
+// seekFaults: the reader's Seek fails. No property states what must happen then, so the verdicts are only the consequences the
+// properties do state: no panic; when no error is surfaced, nothing may be lost or altered (C08: auto-detection on a seekable reader
+// loses nothing; C20: a Rewind that reports success restarts like a fresh Demuxer); a failure is never reported as end of stream
+// with data missing; a later Rewind whose Seek works reports (0, nil) and restarts like a fresh Demuxer. Whether a surfaced error
+// wraps the cause is recorded as an observation.
 func seekFaults(c *mon.Ctx, idx int64, r *rand.Rand, s *gen.Stream, api string) {
 	next := func(dmx *astits.Demuxer) (it Item, panicked string) {
 		p, v, st := mon.Guarded(func() {
@@ -228,78 +230,102 @@ func seekFaults(c *mon.Ctx, idx int64, r *rand.Rand, s *gen.Stream, api string) 
 		}
 		return
 	}
+	// drain returns the items up to the first error (nil error = ErrNoMorePackets reached)
+	drain := func(dmx *astits.Demuxer) (got []Item, firstErr error, panicked string) {
+		for j := 0; j < len(s.Bytes)+64; j++ {
+			it, pn := next(dmx)
+			if pn != "" {
+				return got, nil, pn
+			}
+			if errors.Is(it.Err, astits.ErrNoMorePackets) {
+				return got, nil, ""
+			}
+			if it.Err != nil {
+				return got, it.Err, ""
+			}
+			got = append(got, it)
+		}
+		return got, nil, ""
+	}
+	observe := func(err error) {
+		if errors.Is(err, mon.ErrInjected) {
+			c.Count("seek_errors_surfaced_wrapping_the_cause")
+		} else {
+			c.Count("seek_errors_surfaced_without_the_cause")
+		}
+	}
 	data := map[string]any{"api": api, "stream": mon.Hex(s.Bytes, 1200)}
-	// (a)
+	// (a) packet-size detection
+	fresh0 := RunDemux(s.Bytes, DemuxCfg{Reader: "seek", API: api})
 	dmx, tap := NewDemuxerFor(s.Bytes, DemuxCfg{Reader: "seek", API: api, HasSeekFail: true, SeekFailIdx: 0})
-	it, pn := next(dmx)
-	c.Count("seek_faults_injected")
+	got, ferr, pn := drain(dmx)
 	c.Case(mon.HashStr("sk-a", fmt.Sprint(idx, api)), true)
+	if tap.NSeeks > 0 {
+		c.Count("seek_faults_injected")
+	}
 	switch {
 	case pn != "":
 		c.Violate("C18/seeker/panic:detection", "seeker", idx, pn, data)
-	case tap.NSeeks == 0:
-		c.Violate("C18/seeker/no-seek-during-detection", "seeker", idx, "auto-detection on a seekable reader did not seek back", data)
-	case it.Err == nil:
-		c.Violate("C18/seeker/fault-never-surfaced:detection:"+api, "seeker", idx, "Seek failed during packet-size detection, the call returned a result", data)
-	case !errors.Is(it.Err, mon.ErrInjected):
-		c.Violate("C18/seeker/error-does-not-wrap-cause:detection:"+api, "seeker", idx, fmt.Sprintf("first error: %v", it.Err), data)
+	case ferr != nil:
+		observe(ferr)
+	default:
+		if d := itemsEqual(got, fresh0.Items); d != "" && tap.NSeeks > 0 {
+			c.Violate("C18/seeker/failed-seek-hidden-and-output-differs:detection:"+api, "seeker", idx, "Seek failed during packet-size detection, no error was returned, and the output differs from the fault-free run: "+d, data)
+		}
 	}
-	// (b), (c)
+	// (b), (c) Rewind
 	for _, ps := range []int{188, 0} {
 		k := r.IntN(6)
 		skIdx := 0
 		if ps == 0 && k > 0 {
 			skIdx = 1 // detection has used the first Seek
 		}
+		fresh := RunDemux(s.Bytes, DemuxCfg{Reader: "seek", API: api, PacketSize: ps})
 		dmx, tap = NewDemuxerFor(s.Bytes, DemuxCfg{Reader: "seek", API: api, PacketSize: ps, HasSeekFail: true, SeekFailIdx: skIdx})
 		for j := 0; j < k; j++ {
 			if _, pn = next(dmx); pn != "" {
 				return
 			}
 		}
+		before := tap.NSeeks
 		var rerr error
 		p, v, st := mon.Guarded(func() { _, rerr = dmx.Rewind() })
-		c.Count("seek_faults_injected")
-		c.Count("rewinds_with_failing_seek")
 		c.Case(mon.HashStr("sk-b", fmt.Sprint(idx, api, ps)), true)
 		cls := sizeCls(ps) + ":" + api
 		if p {
 			c.Violate("C18/seeker/panic:rewind", "seeker", idx, fmt.Sprintf("%v\n%s", v, st), data)
 			continue
 		}
-		if tap.NSeeks != skIdx+1 {
-			c.Violate("C18/seeker/unexpected-seek-count:"+cls, "seeker", idx, fmt.Sprintf("%d Seek calls, expected %d", tap.NSeeks, skIdx+1), data)
-			continue
+		if before != skIdx || tap.NSeeks != skIdx+1 {
+			continue // this Rewind did not meet the failing Seek (another seeking pattern): nothing to judge
 		}
+		c.Count("seek_faults_injected")
+		c.Count("rewinds_with_failing_seek")
 		if rerr == nil {
-			c.Violate("C18/seeker/fault-never-surfaced:rewind:"+cls, "seeker", idx, "Seek failed, Rewind returned nil", data)
-			continue
-		}
-		if !errors.Is(rerr, mon.ErrInjected) {
-			c.Violate("C18/seeker/error-does-not-wrap-cause:rewind:"+cls, "seeker", idx, fmt.Sprintf("Rewind returned: %v", rerr), data)
-			continue
-		}
-		// (c) the next Rewind succeeds: the output afterwards equals a fresh run
-		p, v, st = mon.Guarded(func() { _, rerr = dmx.Rewind() })
-		if p || rerr != nil {
-			c.Violate("C18/seeker/rewind-after-failed-rewind:"+cls, "seeker", idx, fmt.Sprintf("panic=%v err=%v %s", v, rerr, st), data)
-			continue
-		}
-		var got []Item
-		for j := 0; j < len(s.Bytes)+64; j++ {
-			it, pn = next(dmx)
+			// success reported: then it must have restarted
+			got, ferr, pn = drain(dmx)
 			if pn != "" {
 				c.Violate("C18/seeker/panic:after-rewind", "seeker", idx, pn, data)
-				return
+			} else if d := itemsEqual(got, fresh.Items); d != "" || ferr != nil {
+				c.Violate("C18/seeker/rewind-reported-success-but-did-not-restart:"+cls, "seeker", idx, fmt.Sprintf("Seek failed, Rewind returned nil; afterwards: err=%v %s", ferr, d), data)
 			}
-			if errors.Is(it.Err, astits.ErrNoMorePackets) {
-				break
-			}
-			got = append(got, it)
+			continue
 		}
-		fresh := RunDemux(s.Bytes, DemuxCfg{Reader: "seek", API: api, PacketSize: ps})
-		if d := itemsEqual(got, fresh.Items); d != "" {
-			c.Violate("C18/seeker/differs-from-fresh-after-recovered-rewind:"+cls, "seeker", idx, d, data)
+		observe(rerr)
+		// (c) the next Rewind finds a working Seek
+		var n int64
+		p, v, st = mon.Guarded(func() { n, rerr = dmx.Rewind() })
+		if p || rerr != nil || n != 0 {
+			c.Violate("C18/seeker/rewind-after-failed-rewind:"+cls, "seeker", idx, fmt.Sprintf("panic=%v n=%d err=%v %s", v, n, rerr, st), data)
+			continue
+		}
+		got, ferr, pn = drain(dmx)
+		if pn != "" {
+			c.Violate("C18/seeker/panic:after-rewind", "seeker", idx, pn, data)
+			return
+		}
+		if d := itemsEqual(got, fresh.Items); d != "" || ferr != nil {
+			c.Violate("C18/seeker/differs-from-fresh-after-recovered-rewind:"+cls, "seeker", idx, fmt.Sprintf("err=%v %s", ferr, d), data)
 		}
 		c.Count("recovered_rewinds_compared")
 	}
